@@ -88,3 +88,12 @@ func obsClass(o *world.Obs) string {
 }
 
 func errNotExist() error { return driver.ErrNotExist }
+
+// primeUnrelated performs one exchange for another resource whose response nominates a number of field names as
+// hop-by-hop for itself (Connection) and carries spellings a later response does not. Nothing of it may carry over
+// to other responses: whatever an implementation derives from one message belongs to that message.
+func primeUnrelated(x *mc.X, w *world.W) {
+	answer(w, RS{Status: 200, H: H("Cache-Control", "max-age=100", "Connection", "X-M, X-New, Age, Set-Cookie, X-Merged, Link", "X-M", "primer", "Vary", "X-Primer")})
+	o := get(w, "http://example.com/unrelated-primer")
+	logObs(x, "GET of an unrelated resource (its response nominates X-M, X-New, Age, Set-Cookie, X-Merged, Link in Connection)", o)
+}
